@@ -240,6 +240,23 @@ func Upgrade8To10(old, new string, logger *log.Logger) (retErr error) {
 	// Check for existing plan (crash recovery).
 	if fsutil.FileExists(planPath) {
 		logger.Printf("found existing upgrade plan at %s, resuming", planPath)
+		if fsutil.DirExists(new) {
+			// The new directory only ever comes into existence through the plan's
+			// rename, so the upgraded snapshot is complete and only cleanup is left.
+			// Re-running the plan from the start would rebuild the temporary directory
+			// and then fail, either renaming it over the existing new directory or,
+			// once the old directory is gone, copying the database out of it.
+			if err := os.RemoveAll(tmpName(new)); err != nil {
+				return fmt.Errorf("failed to remove temporary snapshot directory %s: %s", tmpName(new), err)
+			}
+			if err := os.RemoveAll(old); err != nil {
+				return fmt.Errorf("failed to remove old snapshot directory %s: %s", old, err)
+			}
+			os.Remove(planPath)
+			logger.Printf("completed cleanup of interrupted upgrade of v8 snapshot directory to %s", new)
+			stats.Add(upgradeOk, 1)
+			return nil
+		}
 		p, err := plan.ReadFromFile(planPath)
 		if err != nil {
 			return fmt.Errorf("reading upgrade plan: %w", err)
